@@ -1,9 +1,10 @@
 CONSTANTS
-  Tokens <- MCTokens
+  TokenIds = {"OO", "acetone", "MeOH", "ethane"}
   Atoms = {"C", "O"}
   Objs = {"o1", "o2"}
   Scope = "object"
   MaxCalls = 5
+  TC <- MCTrue
 SPECIFICATION TSpec
 POSTCONDITION Post
 CHECK_DEADLOCK FALSE
